@@ -33,6 +33,22 @@ func main() {
 		}
 		os.Exit(core.Replay(root, args[1], func(id string) *core.Check { return checks.All[id] }))
 	}
+	if args[0] == "selftest" { // binding self-test: corrupted traces must be rejected
+		ids := args[1:]
+		if len(ids) == 0 {
+			for id := range checks.Corruptions {
+				ids = append(ids, id)
+			}
+			sort.Strings(ids)
+		}
+		code := 0
+		for _, id := range ids {
+			if c := core.SelfTest(root, checks.All[id], checks.Corruptions[id]); c > code {
+				code = c
+			}
+		}
+		os.Exit(code)
+	}
 	if args[0] == "list" {
 		ids := []string{}
 		for id := range checks.All {
